@@ -1,5 +1,5 @@
 """C04 — Re-encoding a decoded foreign blob preserves every byte."""
-import random, struct
+import random, struct, zlib
 from common import *
 import runner
 from props import _codecs as cd
@@ -9,12 +9,20 @@ LEAN_MODULES = ["Properties.C04"]
 THEOREMS = ["EngineModel.Properties.C04." + t for t in [
     "C04_v2_track_reencode", "C04_v2_beat_reencode", "C04_v2_ovw_reencode", "C04_v2_loops_reencode",
     "C04_v2_cues_reencode", "C04_normBool_one_byte", "C04_normBool_id",
+    "C04_setter_frame_hot_cue_at", "C04_setter_frame_loop_at", "C04_setter_frame_main_cue",
+    "C04_setter_frame_hot_cues", "C04_setter_frame_average_loudness", "C04_setter_frame_key",
+    "C04_setter_frame_sample_count", "C04_setter_frame_sample_rate", "C04_setter_frame_beatgrid",
+    "C04_setter_frame_loops", "C04_setter_frame_waveform", "C04_setter_frame_column_setters",
+    "C04_stored_payloads", "C04_written_payloads", "C04_setter_untouched_columns", "C04_column_only_setters",
+    "C04_column_only_setters_bytes", "C04_fixed_field_setters_bytes", "C04_slot_setters_bytes",
 ]]
 ASSUMPTIONS = [
     "payload level: compressed bytes are not compared (the harness recovers the payload of the re-encoded blob with "
     "zlib's own uncompress)",
-    "track.update(snapshot) rebuilds all blobs by design and is out of scope; the read-modify-write setters of "
-    "track_impl.cpp are covered by the tie only in so far as they go through from_blob/to_blob (no separate frame theorem)",
+    "track.update(snapshot) rebuilds all blobs by design and is out of scope",
+    "the setter-frame theorems are about applySetter of the 2.x track lens model (EngineModel/TracksV2/Lens.lean, owned "
+    "by the tracks-v2 package; its agreement with track_impl is the C06 tie) related to stored bytes through the Spec "
+    "encoders; the setter-frame stream checks the real library directly (planted foreign blobs, raw read-back)",
 ]
 MANIFEST = dict(
     text="Lean theorems for the five 2.x codecs and every byte string: if the Model decoder accepts b as (v, extra) then "
@@ -24,11 +32,31 @@ MANIFEST = dict(
          "theorems. Tie: foreign payloads (arbitrary counts, flag values, unknown fields, trailing bytes), boundary "
          "payloads and mutated valid payloads go through the real from_blob -> to_blob (sanitizer build) and through "
          "the Model; outputs must be equal, and the direct oracle compares the library's re-encoded payload with the "
-         "input byte for byte (modulo the one flag byte, located by an independent parser).",
-    note="Setter frame (set_* on planted BLOB columns) is not a theorem here; the re-encode law it rests on is.",
+         "input byte for byte (modulo the one flag byte, located by an independent parser). Setter frame: for each of "
+         "the eleven read-modify-write setters of the 2.x track (hot_cue_at, loop_at, main_cue, hot_cues, "
+         "average_loudness, key, sample_count, sample_rate, beatgrid, loops, waveform) a theorem over the 2.x track lens model states "
+         "that every other BLOB column's payload is byte-identical and that in the named column only the byte range of "
+         "the named field differs (slot setters: pre ++ entry ++ post with the same pre/post; scalar fields: "
+         "AgreeOutside a b); tied by planting foreign blobs (0..12 entries, labelled/coloured empty slots, odd flags, "
+         "trailing bytes) into the five BLOB columns of real 2.x tracks through the raw connection, calling every "
+         "setter through the public API and reading the columns back raw (independent inflate + Spec decode). The frame "
+         "theorems are also stated about STORED BYTES (decode the five stored payloads, apply the setter, encode: the "
+         "stored payloads agree outside the named field; quick cues up to normBool), every column a setter does not name "
+         "is proved untouched for all 26 setters, and the fifteen column-only setters change none of the five.",
+    note="set_loops / set_waveform used to rebuild their column and drop foreign extra_data (former known finding, repaired "
+         "by fix: bee2c23; now frame theorems C04_setter_frame_loops / _waveform). Compressed bytes are never compared.",
     technique="Lean 4 theorems (generic Exact law of codec combinators) + byte-exact differential run on foreign blobs",
     ref="6/C04")
 TRUSTED_EXTRA = []
+
+
+# model regenerated from the C++ sources + its equality with the hand model (see props/_implgen.py)
+from props import _implgen
+LEAN_MODULES = LEAN_MODULES + _implgen.MODULES_FOR[ID]
+THEOREMS = THEOREMS + _implgen.THEOREMS_FOR[ID]
+ASSUMPTIONS = ASSUMPTIONS + _implgen.ASSUMPTIONS
+TRUSTED_EXTRA = list(globals().get("TRUSTED_EXTRA", [])) + _implgen.TRUSTED_EXTRA
+TRANSLATORS = dict(globals().get("TRANSLATORS", {}), **_implgen.TRANSLATORS)
 
 
 def cues_flag_offset(p):
@@ -98,6 +126,311 @@ def gen_payloads(rng, tier, hist):
     return items
 
 
+# ------------------------------------------------------------------ setter frame on planted foreign blobs
+COLS = ["trackData", "overviewWaveFormData", "beatData", "quickCues", "loops"]
+COLKIND = {"trackData": "v2.track", "overviewWaveFormData": "v2.ovw", "beatData": "v2.beat", "quickCues": "v2.cues",
+           "loops": "v2.loops"}
+KNOWN_REBUILD_SIG = {"family": "v2", "setter": "set_loops/set_waveform",
+                     "effect": "trailing extra_data of the rebuilt blob column is dropped"}
+BLOB_SETTERS = ["hot_cue_at", "loop_at", "main_cue", "hot_cues", "average_loudness", "key", "sample_count",
+                "sample_rate", "beatgrid"]
+REBUILD_SETTERS = ["loops", "waveform"]
+
+
+def _hx(t):
+    return t.encode().hex()
+
+
+READ = "rawq " + _hx("SELECT trackData, overviewWaveFormData, beatData, quickCues, loops FROM Track WHERE id = 1")
+
+
+def _frame_blob(kind, payload):
+    if kind == "v2.loops":
+        return payload
+    return struct.pack(">I", len(payload)) + zlib.compress(payload, 6)
+
+
+def _unframe_blob(kind, blob):
+    """independent reading of a stored column: None when it is not length + one complete zlib stream"""
+    if kind == "v2.loops":
+        return blob
+    if len(blob) == 0:
+        return b""
+    if len(blob) < 4:
+        return None
+    n = struct.unpack(">I", blob[:4])[0]
+    if n == 0:
+        return b""
+    try:
+        d = zlib.decompressobj()
+        out = d.decompress(blob[4:])
+        if not d.eof or d.unused_data or len(out) != n:
+            return None
+        return out
+    except zlib.error:
+        return None
+
+
+def _fields(kind, text):
+    """canonical Spec-decoded text -> dict of named fields (lists for entries)"""
+    t = text.split()
+    if kind == "v2.track":
+        return dict(zip(["sr", "samples", "key", "lo", "mid", "hi", "extra"], t))
+    if kind == "v2.ovw":
+        return dict(zip(["spp", "pts", "mx", "extra"], t))
+    if kind == "v2.beat":
+        d = {"sr": t[0], "samples": t[1], "flag": t[2]}
+        i = 3
+        for g in ("dflt", "adj"):
+            n = int(t[i]); i += 1
+            d[g] = [" ".join(t[i + 4 * k:i + 4 * k + 4]) for k in range(n)]
+            i += 4 * n
+        d["extra"] = t[i]
+        return d
+    if kind == "v2.cues":
+        n = int(t[0])
+        d = {"entries": [" ".join(t[1 + 6 * k:7 + 6 * k]) for k in range(n)]}
+        i = 1 + 6 * n
+        d.update(adj=t[i], flag=t[i + 1], dflt=t[i + 2], extra=t[i + 3])
+        return d
+    if kind == "v2.loops":
+        n = int(t[0])
+        d = {"entries": [" ".join(t[1 + 9 * k:10 + 9 * k]) for k in range(n)]}
+        d["extra"] = t[1 + 9 * n]
+        return d
+    raise KeyError(kind)
+
+
+def _allowed(field, value):
+    """column -> what the setter may change there: set of field names, or ('entry', i)"""
+    if field == "average_loudness": return {"trackData": {"lo", "mid", "hi"}}
+    if field == "key": return {"trackData": {"key"}}
+    if field == "sample_count": return {"trackData": {"samples"}, "beatData": {"samples"}}
+    if field == "sample_rate": return {"trackData": {"sr"}, "beatData": {"sr"}}
+    if field == "main_cue": return {"quickCues": {"adj", "flag", "dflt"}}
+    if field == "hot_cues": return {"quickCues": {"entries"}}
+    if field == "beatgrid": return {"beatData": {"flag", "dflt", "adj"}}
+    if field == "hot_cue_at": return {"quickCues": ("entry", int(value.split()[0]))}
+    if field == "loop_at": return {"loops": ("entry", int(value.split()[0]))}
+    if field == "loops": return {"loops": {"entries"}}
+    if field == "waveform": return {"overviewWaveFormData": {"spp", "pts", "mx"}}
+    return {}
+
+
+def _frame_breach(col, allowed, old, new):
+    """None when `new` differs from `old` only where `allowed` permits; else a description"""
+    kind = COLKIND[col]
+    bad = []
+    if isinstance(allowed, tuple):
+        i = allowed[1]
+        a, b = old["entries"], new["entries"]
+        if len(a) != len(b):
+            bad.append("entry count %d -> %d" % (len(a), len(b)))
+        else:
+            bad += ["entry %d" % k for k in range(len(a)) if k != i and a[k] != b[k]]
+        bad += [f for f in old if f != "entries" and old[f] != new[f]]
+    else:
+        bad += [f for f in old if f not in allowed and old[f] != new.get(f)]
+    return ", ".join(bad) if bad else None
+
+
+def gen_foreign_blobs(rng, tier, hist, n):
+    """n sets of five foreign payloads (Spec-encoded, never shapes the library writes)"""
+    from props.parts import _tracksv2_gen as G
+    g = cd.Gen(rng, hist)
+    sets, enc = [], []
+    for _ in range(n):
+        vals = {}
+        vals["trackData"] = dict(sr=cd.dbits(rng.choice([44100.0, 48000.0, 96000.0])), samples=rng.randrange(1, 10 ** 9),
+                                 key=g.i32(), lo=g.f(), mid=g.f(), hi=g.f(), extra=g.extra())
+        vals["overviewWaveFormData"] = g.v2_ovw()
+        vals["beatData"] = g.v2_beat()
+        ncue = rng.choice([0, 1, 3, 7, 8, 8, 8, 9, 12])
+        cues = []
+        for _ in range(ncue):
+            if rng.random() < 0.45:      # an "empty" slot (offset -1) that still carries a label and/or a colour
+                cues.append((g.label(rng.choice([0, 0, 3, 17])), cd.NEG1, rng.choice([(0, 0, 0, 0), g.color()])))
+            else:
+                cues.append((g.label(rng.choice([0, 1, 5, 255])), g.f(), g.color()))
+        vals["quickCues"] = dict(cues=cues, adj=g.f(), flag=rng.choice([0, 1, 1, 2, 255]), dflt=g.f(), extra=g.extra())
+        nl = rng.choice([0, 1, 3, 7, 8, 8, 8, 9, 12])
+        loops = []
+        for _ in range(nl):
+            if rng.random() < 0.45:
+                loops.append((g.label(rng.choice([0, 0, 3, 17])), cd.NEG1, cd.NEG1, rng.choice([0, 0, 1, 7]),
+                              rng.choice([0, 0, 1]), rng.choice([(0, 0, 0, 0), g.color()])))
+            else:
+                loops.append((g.label(rng.choice([0, 1, 5, 255])), g.f(), g.f(), g.u8(), g.u8(), g.color()))
+        vals["loops"] = dict(loops=loops, extra=g.extra())
+        sets.append(vals)
+        enc += ["senc %s %s" % (COLKIND[c], cd.enc_text(COLKIND[c], vals[c])) for c in COLS]
+    mo = [o for outs in runner.run_model(runner.shard(enc, NCPU)) for o in outs]
+    out = []
+    for i in range(n):
+        pay = {}
+        for j, c in enumerate(COLS):
+            t = mo[5 * i + j].split()
+            pay[c] = (b"" if len(t) < 2 or t[1] == "-" else bytes.fromhex(t[1])) if t and t[0] == "ok" else None
+        if all(v is not None for v in pay.values()):
+            out.append(pay)
+    return out
+
+
+def gen_setter_step(rng, tier, uniq, ncue, nloop):
+    from props.parts import _tracksv2_gen as G
+    c = rng.random()
+    want = rng.choice(BLOB_SETTERS) if c < 0.72 else (rng.choice(REBUILD_SETTERS) if c < 0.8 else None)
+    for _ in range(400):
+        f, v = G.gen_setter(rng, tier, uniq)
+        if want is None and f not in BLOB_SETTERS and f not in REBUILD_SETTERS and f != "relative_path":
+            return f, v
+        if f == want:
+            if f in ("hot_cue_at", "loop_at") and rng.random() < 0.8:
+                n = ncue if f == "hot_cue_at" else nloop
+                if n:
+                    v = "%d %s" % (rng.randrange(n), v.split(" ", 1)[1])
+            return f, v
+    return "title", "none"
+
+
+def setter_frame_stream(ctx, rng, hist, divergences, violations):
+    """Foreign blobs planted in the five BLOB columns of a 2.x track through the raw connection; every
+    single-field setter is then called through the public API and the columns are read back raw.  Oracle:
+    each column still is length + one complete zlib stream, every column the setter does not name has the
+    identical payload, and in the named column(s) the Spec decoder sees a change only in the named field(s)."""
+    from props.parts import _tracksv2_gen as G
+    nscripts = 10 if ctx.tier == "quick" else 120
+    nsteps = 14 if ctx.tier == "quick" else 30
+    blobs = gen_foreign_blobs(rng, ctx.tier, hist, nscripts)
+    scripts, meta = [], []
+    for k, pay in enumerate(blobs):
+        schema = G.SCHEMAS[(ctx.seed + k) % len(G.SCHEMAS)] if ctx.tier == "quick" else G.SCHEMAS[k % len(G.SCHEMAS)]
+        snap = G.gen_snapshot(rng, ctx.tier, 7000 + k, valid_bias=1.0)
+        snap["relative_path"] = b"frame/t%d.mp3" % k
+        G.storable_waveform(snap)
+        if isinstance(snap.get("sample_rate"), str) and snap.get("waveform"):
+            snap["sample_rate"] = 44100.0
+        sets = ", ".join("%s = X'%s'" % (c, _frame_blob(COLKIND[c], pay[c]).hex()) for c in COLS)
+        L = ["create %s mem" % schema, "mktrack ta " + G.fmt_snapshot(snap),
+             "rawx " + _hx("UPDATE Track SET %s WHERE id = 1" % sets), READ]
+        steps = []
+        ncue = struct.unpack(">q", pay["quickCues"][:8])[0]
+        nloop = struct.unpack("<q", pay["loops"][:8])[0]
+        for j in range(nsteps):
+            f, v = gen_setter_step(rng, ctx.tier, 7000 * 100 + k * 100 + j, ncue, nloop)
+            steps.append((len(L), f, v))
+            L += ["set ta %s %s" % (f, v), READ]
+        scripts.append(L)
+        meta.append(steps)
+    n, d = judge_frames(scripts, meta, hist, violations)
+    return n, d
+
+
+def judge_frames(scripts, meta, hist, violations):
+    """run the scripts on the real library and apply the frame oracle to every setter step"""
+    res = runner.run_harness(scripts, stateless=False, watchdog=30)
+    # collect the payloads of every read; Spec-decode the changed ones in one batch
+    def parse_read(o):
+        if not o.startswith("ok ("):
+            return None
+        body = o[4:].rstrip(")").split(",")
+        if len(body) != 5:
+            return None
+        out = {}
+        for c, x in zip(COLS, body):
+            raw = bytes.fromhex(x[1:]) if x.startswith("b") and len(x) > 1 else (b"" if x in ("b", "b-") else None)
+            out[c] = None if raw is None else _unframe_blob(COLKIND[c], raw)
+        return out
+    checks, sdec = [], []
+    for si, (L, (outs, _)) in enumerate(zip(scripts, res)):
+        if len(outs) < 4 or not outs[1].startswith("ok") or not outs[2].startswith("ok"):
+            hist["frame:script_not_started"] = hist.get("frame:script_not_started", 0) + 1
+            continue
+        prev = parse_read(outs[3])
+        for (li, f, v) in meta[si]:
+            if li + 1 >= len(outs):
+                break
+            so, cur = outs[li], parse_read(outs[li + 1])
+            replay = L[:li + 2]
+            if so.startswith("ub") or so.startswith("skipped"):
+                violations.append({"tag": "oracle", "signature": None,
+                                   "header": {"kind": "script", "what": "setter crashed: " + so}, "body": replay})
+                break
+            if prev is None or cur is None:
+                break
+            hist["frame:setter:" + f] = hist.get("frame:setter:" + f, 0) + 1
+            allowed = _allowed(f, v) if so.startswith("ok") else {}
+            for c in COLS:
+                if cur[c] is None:
+                    violations.append({"tag": "oracle", "signature": None, "header": {
+                        "kind": "script", "what": "after set_%s the %s column is no longer a length-prefixed complete "
+                                                  "zlib stream" % (f, c)}, "body": replay})
+                elif prev[c] is not None and cur[c] != prev[c]:
+                    if c not in allowed:
+                        violations.append({"tag": "oracle", "signature": None, "header": {
+                            "kind": "script", "what": "set_%s changed the payload of column %s, which it does not name"
+                                                      % (f, c)},
+                            "body": replay + ["before: " + cd.hexb(prev[c])[:400], "after:  " + cd.hexb(cur[c])[:400]]})
+                    else:
+                        checks.append((si, li, f, v, c, allowed[c], prev[c], cur[c], replay))
+                        sdec += ["sdec %s %s" % (COLKIND[c], cd.hexb(prev[c])), "sdec %s %s" % (COLKIND[c], cd.hexb(cur[c]))]
+                        hist["frame:changed:" + c] = hist.get("frame:changed:" + c, 0) + 1
+            prev = cur
+    mo = [o for outs in runner.run_model(runner.shard(sdec, NCPU)) for o in outs] if sdec else []
+    distinct = set()
+    for k, (si, li, f, v, c, al, old, new, replay) in enumerate(checks):
+        a, b = mo[2 * k], mo[2 * k + 1]
+        if not (a.startswith("ok") and b.startswith("ok")):
+            violations.append({"tag": "oracle", "signature": None, "header": {
+                "kind": "script", "what": "after set_%s the %s payload is rejected by the independent decoder" % (f, c)},
+                "body": replay + ["after: " + cd.hexb(new)[:400], "spec: " + b[:100]]})
+            continue
+        br = _frame_breach(c, al, _fields(COLKIND[c], a[3:]), _fields(COLKIND[c], b[3:]))
+        if br is None:
+            distinct.add((si, li))
+            continue
+        sig = None      # (set_loops / set_waveform dropping `extra` was a known finding until fix: bee2c23)
+        violations.append({"tag": "oracle", "signature": sig, "header": {
+            "kind": "script", "what": "set_%s altered bytes of column %s outside the field it names: %s" % (f, c, br)},
+            "body": replay + ["before: " + cd.hexb(old)[:600], "after:  " + cd.hexb(new)[:600]]})
+    return sum(len(L) for L in scripts) + len(sdec), len(distinct)
+
+
+def replay(ctx, hdr, body):
+    """script replays (setter frame) run on the real library only and are judged by the frame oracle;
+    byte-string replays run the recorded line on library and Model."""
+    import re
+    lines = [l for l in body if not re.match(r"^[A-Za-z_()0-9 ]{1,20}: ", l)]
+    if hdr.get("kind") == "script":
+        steps = []
+        for i, l in enumerate(lines):
+            t = l.split(" ", 3)
+            if t[0] == "set" and i + 1 < len(lines) and lines[i + 1] == READ:
+                steps.append((i, t[2], t[3] if len(t) > 3 else ""))
+        viol, hist = [], {}
+        judge_frames([lines], [steps], hist, viol)
+        unknown = [v for v in viol if v["signature"] is None]
+        txt = "\n".join(["%d setter steps judged on the working tree" % len(steps)] +
+                        ["  %s" % v["header"]["what"] for v in viol] +
+                        ["recorded verdict: %s" % hdr.get("what", "(none)")])
+        return (not unknown), txt
+    hout, _ = runner.run_harness_script(lines, stateless=True)
+    mout = runner.run_model_script(lines)
+    ok, out = True, []
+    for l, h, m in zip(lines, hout, mout):
+        good = h == m
+        if l.startswith("reenc") and h.startswith("ok"):
+            k, px = l.split()[1], l.split()[2]
+            pb = b"" if px == "-" else bytes.fromhex(px)
+            t = h.split()
+            got = b"" if len(t) < 2 or t[1] == "-" else (None if t[1] == "UNFRAMED" else bytes.fromhex(t[1]))
+            good = good and got == norm_bool(k, pb)
+        ok = ok and good
+        out.append("%s\n   impl:  %s\n   model: %s%s" % (l[:300], h[:300], m[:300], "" if good else "   <-- violates"))
+    out.append("recorded verdict: %s" % hdr.get("what", "(none)"))
+    return ok, "\n".join(out)
+
+
 def tie(ctx):
     rng = random.Random(ctx.seed * 49979687 + 4)
     hist = {}
@@ -132,16 +465,31 @@ def tie(ctx):
                                "body": [l, "impl: " + h]})
     hist.update({"stream:" + k: v for k, v in st.items()})
     hist.update({"accepted:" + k: v for k, v in accepted.items()})
+    fr_eval, fr_distinct = setter_frame_stream(ctx, random.Random(ctx.seed * 6700417 + 44), hist, divergences, violations)
+    seen_sig, vout = set(), []
+    for v in violations:
+        key = repr(v["signature"])
+        if v["signature"] is not None and key in seen_sig:
+            continue
+        seen_sig.add(key)
+        vout.append(v)
+    violations = vout
+    unknown = [v for v in violations if v["signature"] is None]
     return {
-        "ok": not divergences and not violations,
-        "evaluations": len(lines),
-        "distinct_nontrivial": len(distinct),
+        "ok": not divergences and not unknown,
+        "evaluations": len(lines) + fr_eval,
+        "distinct_nontrivial": len(distinct) + fr_distinct,
         "rule": "2.x payloads from the Spec/Model encoder with arbitrary entry counts (0..12), flag bytes (0..255), unknown "
                 "int fields and extra_data, the same with trailing bytes appended, every flag value planted in quick "
                 "cues, boundary payloads of every count field, and structurally mutated valid payloads; each goes "
                 "through real from_blob -> to_blob and through the Model; non-trivial = accepted payload that the "
                 "library itself would not have written (trailing data / foreign flag / mutated / boundary) re-encoded "
-                "byte-identically",
+                "byte-identically. Setter frame: foreign payloads (0..12 entries, labelled / coloured empty slots, flag "
+                "bytes 0/1/2/255, unknown fields, trailing bytes) planted in the five BLOB columns of a 2.x track "
+                "through the raw connection; every track setter called through the public API; columns read back raw "
+                "and inflated independently; non-named columns must be byte-identical, named columns may differ only "
+                "in the named field as seen by the Spec decoder; non-trivial = setter call that changed a column and "
+                "passed",
         "samples": [lines[0][:200], lines[len(lines) // 2][:200], lines[-1][:200]],
         "histograms": hist,
         "divergences": divergences[:20],
